@@ -403,6 +403,30 @@ func init() {
 		i := int(args[0].(uint64))
 		return m.udpLog[i].(tuple)[1], true
 	}
+	// per-socket views of the datagram log
+	onConn := func(m *Machine, c value) []tuple {
+		var out []tuple
+		for _, d := range m.udpLog {
+			t := d.(tuple)
+			if t[2] == c {
+				out = append(out, t)
+			}
+		}
+		return out
+	}
+	harnessAPI["zzSentCountOn"] = func(m *Machine, fr *frame, fn *ssa.Function, args []value) (value, bool) {
+		return uint64(len(onConn(m, args[0]))), true
+	}
+	harnessAPI["zzSentBytesOn"] = func(m *Machine, fr *frame, fn *ssa.Function, args []value) (value, bool) {
+		d := onConn(m, args[0])[int(args[1].(uint64))]
+		b := d[0].([]value)
+		out := make([]value, len(b))
+		copy(out, b)
+		return out, true
+	}
+	harnessAPI["zzSentAddrOn"] = func(m *Machine, fr *frame, fn *ssa.Function, args []value) (value, bool) {
+		return onConn(m, args[0])[int(args[1].(uint64))][1], true
+	}
 	harnessAPI["zzTimersActive"] = func(m *Machine, fr *frame, fn *ssa.Function, args []value) (value, bool) {
 		n := 0
 		for _, t := range m.sync().timers {
@@ -800,7 +824,7 @@ func init() {
 		b := args[1].([]value)
 		cp := make([]value, len(b))
 		copy(cp, b)
-		m.udpLog = append(m.udpLog, tuple{cp, args[2]})
+		m.udpLog = append(m.udpLog, tuple{cp, args[2], args[0]})
 		return tuple{uint64(len(b)), nilErr()}, true
 	})
 	reg("(*net.UDPConn).ReadFrom", func(m *Machine, fr *frame, fn *ssa.Function, args []value) (value, bool) {
